@@ -59,7 +59,9 @@ def run_one(prop, patch, runs=None, tier="quick"):
 
 
 def main(argv):
-    props = [a.upper() for a in argv if not a.startswith("-")]
+    props = [a.upper() for a in argv if not a.startswith("-") and "/" not in a]
+    only_names = {a.split("/", 1)[1] for a in argv if "/" in a}
+    props += [a.split("/", 1)[0].upper() for a in argv if "/" in a]
     res_path = os.path.join(MUT, "RESULTS.json")
     try:
         results = json.load(open(res_path))
@@ -74,22 +76,31 @@ def main(argv):
             if name.endswith(".patch"):
                 todo.append((prop, name[:-6], os.path.join(d, name)))
     missed = 0
+    nrun = 0
     for prop, name, patch in todo:
+        if only_names and name not in only_names:
+            continue
         r = run_one(prop, patch)
         with open(patch) as f:
             head = f.readline() + f.readline()
         r["note"] = head.replace("#", "").strip().replace("\n", " | ")
+        control = name.startswith("control-")
+        r["control"] = control
+        if control:
+            r["status"] = {"missed": "quiet (control)", "detected": "FALSE-ALARM on control"}.get(
+                r["status"], r["status"])
         results["{}/{}".format(prop, name)] = r
-        print("{:4s} {:45s} {:14s} {} of {} runs violate  {:6.1f}s  {}".format(
+        nrun += 1
+        print("{:4s} {:45s} {:16s} {} of {} runs violate  {:6.1f}s  {}".format(
             prop, name, r["status"], r.get("violating_runs"), r.get("runs"),
             r.get("wall_s", 0), ";".join(r.get("signatures", [])[:2])[:90]), flush=True)
-        if r["status"] != "detected":
+        if r["status"] not in ("detected", "quiet (control)"):
             missed += 1
             if r.get("detail"):
                 print("      " + r["detail"][-400:].replace("\n", "\n      "))
         with open(res_path, "w") as f:
             json.dump(results, f, indent=1, sort_keys=True)
-    print("mutants: {} run, {} not detected".format(len(todo), missed))
+    print("mutants: {} run, {} not as expected".format(nrun, missed))
     return 0
 
 
